@@ -566,3 +566,102 @@ def s_to_c_config():
 def targets_s_to_c():
     return [Target('wave_sim', 'WaveSim.s_to_c', [s_to_c_config()], prims=s_to_c_prims, instantiate='fallback',
                    note='numpy gather / choose / scatter as element functions; waveform encoding of the (initial, time, final) assignment')]
+
+
+# ------------------------------------------------------------------------------------------------- WaveSimCuda.c_prop (C06 / C07)
+class Method_(Model):
+    def __init__(self, fn):
+        self.fn = fn
+
+    def m_call(self, ex, st, args, kwargs, node):
+        return self.fn(ex, st, args, kwargs, node)
+
+
+class CudaMod(Model):
+    def m_getattr(self, ex, st, name, node):
+        if name == 'synchronize':
+            return Method_(lambda ex_, st_, a, k, n: None)
+        raise NotInSubset(f'cuda.{name}')
+
+
+class Kernel(Model):
+    """wave_eval_gpu[grid, block](...): the launcher runs every thread of the grid exactly once (launcher_c); one thread evaluates the pair
+    (op_start + y, sim_start + x) exactly once iff both are inside their ranges, and nothing otherwise (wave_kernels_c, eval_gpu_config)"""
+
+    def m_getitem(self, ex, st, idx, node):
+        if not (isinstance(idx, tuple) and len(idx) == 2 and all(isinstance(t, tuple) and len(t) == 2 for t in idx)):
+            raise NotInSubset('kernel launch configuration')
+        (gx, gy), (bx, by) = idx
+        return Method_(lambda ex_, st_, a, k, n, dims=(gx, gy, bx, by): self.launch(ex_, st_, a, dims, n))
+
+    def launch(self, ex, st, args, dims, node):
+        gx, gy, bx, by = (to_int(v) for v in dims)
+        ops, a, b_, c, c_locs, c_caps, abuf, s0, s1, delays, sc, seed = args
+        g = ex.g
+        passthru = all(isinstance(v, Opaque) and v.name == nm for v, nm in ((c, 'c'), (c_locs, 'c_locs'), (c_caps, 'c_caps'), (abuf, 'abuf'), (delays, 'delays'), (sc, 'simctl_int')))
+        ex.prove(st, 'call:the kernel gets ops, c, c_locs, c_caps, abuf, delays, simctl_int of self', passthru and ops is st.heap[('self', 'ops')], node)
+        a, b_, s0, s1 = to_int(a), to_int(b_), to_int(s0), to_int(s1)
+        ex.prove(st, 'requires wave_eval_gpu: 0 <= op_start <= op_stop <= n_ops, 0 <= sim_start <= sim_stop <= sims, grid extents >= 0',
+                 z3.And(0 <= a, a <= b_, b_ <= g['n'], 0 <= s0, s0 <= s1, s1 <= g['sims'], gx >= 0, gy >= 0), node)
+        ex.prove(st, 'the grid covers the level: grid_x * block_x >= lanes, grid_y * block_y >= ops of the level', z3.And(gx * bx >= s1 - s0, gy * by >= b_ - a), node)
+        C = st.heap['calls']
+        C1 = z3.Const(f'calls!{next(ex.fresh)}', z3.ArraySort(I, z3.ArraySort(I, I)))
+        j, s = z3.Ints('j s')
+        hit = z3.And(a <= j, j < b_, j - a < gy * by, s0 <= s, s < s1, s - s0 < gx * bx)
+        st.assume(SBool(z3.ForAll([j, s], C1[j][s] == C[j][s] + z3.If(hit, 1, 0))))
+        st.heap['calls'] = C1
+        return None
+
+
+def cuda_cprop_config(block, sims_arg):
+    def setup(ex):
+        st = State()
+        n, sims = ex.fv('n_ops', 'int'), ex.fv('self_sims', 'int')
+        ln = ex.fv('n_levels', 'int').e
+        st.assume(SBool(z3.And(n.e >= 0, sims.e >= 1)))
+        L, T = z3.Array('L', I, I), z3.Array('T', I, I)
+        ls, lt = IntList('level_starts'), IntList('level_stops')
+        st.heap[('level_starts', 'arr')], st.heap[('level_starts', 'len')] = L, SInt(ln)
+        st.heap[('level_stops', 'arr')], st.heap[('level_stops', 'len')] = T, SInt(ln)
+        l = z3.Int('l')
+        st.assume(SBool(z3.And(ln >= 1, L[0] == 0, T[ln - 1] == n.e)))
+        st.assume(SBool(z3.ForAll([l], z3.Implies(z3.And(0 <= l, l < ln - 1), z3.And(T[l] == L[l + 1], L[l] < L[l + 1])))))
+        st.assume(SBool(z3.ForAll([l], z3.Implies(z3.And(0 <= l, l < ln), z3.And(L[l] >= 0, L[l] <= n.e, T[l] >= L[l], T[l] <= n.e)))))
+        st.heap['calls'] = z3.K(I, z3.K(I, z3.IntVal(0)))
+        selfo = SObj.new(st, 'self', ops=Table2(OPSF, n, 9), c=Opaque('c'), c_locs=Opaque('c_locs'), c_caps=Opaque('c_caps'), abuf=Opaque('abuf'),
+                         delays=Opaque('delays'), simctl_int=Opaque('simctl_int'), sims=sims, level_starts=ls, level_stops=lt, _block_dim=block)
+        ex.readonly.update({('self', f) for f in ('ops', 'c', 'c_locs', 'c_caps', 'abuf', 'delays', 'simctl_int', 'sims', 'level_starts', 'level_stops', '_block_dim')})
+        ex.readonly.update({('level_starts', 'arr'), ('level_starts', 'len'), ('level_stops', 'arr'), ('level_stops', 'len')})
+        if sims_arg == 'none':
+            sv, eff = None, sims.e
+        else:
+            sv = ex.fv('sims', 'int')
+            st.assume(SBool(sv.e >= 1))
+            eff = z3.If(sv.e < sims.e, sv.e, sims.e)
+        st.env.update(self=selfo, sims=sv, seed=ex.fv('seed', 'int'), wave_eval_gpu=Kernel(), cuda=CudaMod())
+        ex.g = dict(n=n.e, L=L, T=T, ln=ln, eff=eff, sims=sims.e)
+        return st
+
+    def done(g, k):
+        j, s = z3.Ints('j s')
+        return j, s, z3.If(z3.And(0 <= j, j < k, 0 <= s, s < g['eff']), 1, 0)
+
+    def inv(ex, st):
+        g = ex.g
+        l = to_int(st.env['__k0'])
+        k = z3.If(l < g['ln'], g['L'][l], g['n'])
+        j, s, want = done(g, k)
+        yield 'every (op, lane) pair of the levels launched so far has been evaluated exactly once, nothing else', SBool(z3.ForAll([j, s], st.heap['calls'][j][s] == want))
+
+    def post(ex, st):
+        g = ex.g
+        j, s, want = done(g, g['n'])
+        yield 'every (op, lane < simulated lanes) pair is evaluated exactly once over all launches, and nothing else', SBool(z3.ForAll([j, s], st.heap['calls'][j][s] == want))
+        ex.prove(st, 'mustfail:nothing is ever evaluated', SBool(z3.ForAll([j, s], st.heap['calls'][j][s] == 0)), ex.fn, expect='refuted')
+    contract = {'post': post, 'loop_match': {0: ('zip(', 0)}, 'loops': {0: {'inv': inv, 'modifies': ['calls'], 'kinds': {'grid_dim': 'keep'}}}}
+    return Config(f'any level partition, block {block}, sims={sims_arg}', contract, setup, None)
+
+
+def targets_cuda():
+    return [Target('wave_sim', 'WaveSimCuda.c_prop', [cuda_cprop_config((32, 16), 'none'), cuda_cprop_config((32, 16), 'k'), cuda_cprop_config((3, 5), 'k')], instantiate='fallback',
+                   note='launch grid per level covers the level; with the launcher (every thread once) and the thread contract (its pair once iff in range) every (op, lane) pair is evaluated exactly once')]
